@@ -155,12 +155,25 @@ fn collect(rep: &mut Report, v: &Value) {
                 match src {
                     "scan" => Box::new(vals.clone().into_iter().scan((), |_, x| Some(x))) as Box<dyn TrustedLen<Item = f64>>,
                     "scan_of_map" => Box::new(vals.clone().into_iter().map(|x| x).scan(0usize, |k, x| { *k += 1; Some(x) })) as Box<dyn TrustedLen<Item = f64>>,
+                    // the crate's own wrapper around a source with an inexact hint, alone and under
+                    // enumerate().rev() (driven from the back: std reads len() of the wrapper)
+                    "trust_of_filter" => Box::new(vals.clone().into_iter().filter(|_| true).to_trust(n)) as Box<dyn TrustedLen<Item = f64>>,
+                    "trust_enum_rev" => {
+                        let mut r = vals.clone();
+                        r.reverse();
+                        Box::new(r.into_iter().filter(|_| true).to_trust(n).enumerate().rev().map(|(_, x)| x)) as Box<dyn TrustedLen<Item = f64>>
+                    },
                     _ => Box::new(vals.clone().into_iter().rev().rev()) as Box<dyn TrustedLen<Item = f64>>,
                 }
             }};
         }
         let (lo, up) = source!().size_hint();
         if (lo as i64, up.map(|x| x as i64)) != (hint[0], Some(hint[1])) {
+            if src.starts_with("trust") {
+                // the wrapper is the library's: announcing anything else than its declared length is the fault
+                judge(rep, "to_trust", &key, "size_hint", Ok(Err(format!("the wrapper announces ({lo}, {up:?}), declared {n}"))), v);
+                return;
+            }
             tool_error(&format!("source {src} announces ({lo}, {up:?}), the specification models {hint:?}"));
         }
         judge(rep, "collect_trusted_vec1", &key, "Vec<f64>", catch(|| same(&source!().collect_trusted_vec1::<Vec<f64>>())), v);
